@@ -130,10 +130,10 @@ pub trait StaticLayoutTrait {
 //@repo crates/air/src/layout/mod.rs trait GenericLayoutTrait props=C01,C02
 pub trait GenericLayoutTrait/*+*/: LayoutSpec/*-*/ {
     fn get_num_columns_first(public_input: &PublicInput) -> (r: Option<usize>)
-        ensures r is Some <==> Self::params_known(public_input), r is Some ==> r->Some_0 == Self::n_cols(public_input).0,
+        ensures r is Some <==> Self::params_known(public_input), r is Some ==> r->Some_0 == Self::n_cols(public_input).0, // [C01,C02,C11:first-trace-column-count-is-the-layout's]
     ;
     fn get_num_columns_second(public_input: &PublicInput) -> (r: Option<usize>)
-        ensures r is Some <==> Self::params_known(public_input), r is Some ==> r->Some_0 == Self::n_cols(public_input).1,
+        ensures r is Some <==> Self::params_known(public_input), r is Some ==> r->Some_0 == Self::n_cols(public_input).1, // [C01,C02,C11:second-trace-column-count-is-the-layout's]
     ;
 }
 //@end
